@@ -109,6 +109,40 @@ PROPS["C16"] = dict(
          "first_use_child_processes); oracle = the concurrent case's (per call, and equal to the same call made alone "
          "afterwards), evaluated in the child and reported by the parent; a child that dies with a Go panic / fatal error "
          "whose trace runs through the library is signature first-use-process-died. "
+         "Collision sequences (seventh case type, unit collisions, BOTH tiers): the Unmarshal functions are functions of their "
+         "argument, so what a call returns is a sub-range of ITS input or a copy of one whatever was decoded before. A case = 2..4 "
+         "bodies of one length (2..48, sometimes ..600, a tenth 2^k-9..2^k+9 up to 64 KiB) that DIFFER and agree under a cheap hash, "
+         "forged by construction and verified with the standard library: CRC-32 IEEE / Castagnoli / Koopman and CRC-64 ISO / ECMA "
+         "(a patch of 4 / 8 bytes anywhere in the body, solved by elimination over GF(2)), Adler-32 (+1,-2,+1 on three neighbouring "
+         "bytes), 32-bit FNV-1 and FNV-1a (two 8-byte blocks that collide from the initial state, birthday search once per process, in "
+         "front of a common rest), sum of bytes, xor of bytes, a permutation of the bytes, equal first and last 8 bytes, equal first "
+         "16 / 32 / 64 bytes (64-bit FNV collisions are out of reach and not covered). Each body becomes a complete record (exact "
+         "prefix, minimal or over-long, alone or followed by up to 20 bytes); for every ordered pair (i, j) of records and every "
+         "ordered pair of the four functions that return bytes (UnmarshalBytes / UnmarshalString x newBuf false / true: the orders "
+         "true-true, true-false, false-true, false-false, slice and string decoder mixed) the first is called on record i and then "
+         "the second on record j - on one goroutine, or every record always on a goroutine of its own (hand-over, one call at a "
+         "time), or one goroutine per record with all of them decoding all records at the same time, a quarter of those with "
+         "GOMAXPROCS(1); per-call oracle as above (a newBuf=false result lies in this input by pointer arithmetic, a newBuf=true result "
+         "equals a range of this input byte for byte and lies outside it). Enumerated: 15 hashes x 17 body lengths 2..70000 x 3 modes; "
+         "rapid on top. Counted per hash in collision_pairs_decoded_back_to_back_<hash> / _at_the_same_time_<hash>; classes "
+         "collision_bodies_agree_in_length_and_<hash>, collision_sequence_on_one_goroutine, _handed_from_goroutine_to_goroutine, "
+         "collision_records_decoded_at_the_same_time. "
+         "Stack inputs (eighth case type, unit stack_inputs, BOTH tiers): the input is a local array of the caller that does not "
+         "escape ([64]byte, or [1024]byte for longer inputs and a quarter of the short ones), sliced - it lives on the goroutine stack, "
+         "which Go MOVES when it grows. A case = one input (complete record with a body of 0..60, a sixth ..1000 bytes, minimal or "
+         "over-long prefix, sometimes 3 bytes behind; a grammar input; a mutated input) and ONE Unmarshal function; a fresh goroutine "
+         "(smallest stack) goes down 0..63 tiny frames and then 100..3000 frames of a recursion with a frame of a few words, about "
+         "100 or about 300 bytes, and at every level fills the array and makes the call: descending in small steps, at every stack "
+         "size (8, 16, 32 KiB ...) some call exhausts the stack in the prologue of the decoder or of a function it calls, i.e. the "
+         "input moves DURING the call (observed: the slice's data pointer before and after the call differ - "
+         "stack_moved_during_decoder_call, stack_moved_during_<function>, stack_moved_during_zero_copy_decode_of_non_empty_value; about "
+         "half of the cases). Oracle per call as above with the input's address range taken AFTER the call (the harness's slice is a "
+         "pointer the runtime keeps up to date), plus: the call returns the n, the success/failure and the bytes of the same call on a "
+         "heap copy (placement-dependent-result). One function and one input per descent, because another call at the same level "
+         "would take the growth away. Enumerated: every function x 14 inputs x 3 frame sizes. The harness touches the array only "
+         "through direct calls that do not retain it (go build -gcflags=-m: 'in does not escape', no 'moved to heap'); at run time "
+         "every probe checks that the array lies within 64 KiB of another local of its frame "
+         "(stack_input_confirmed_next_to_a_local_of_its_frame; otherwise an inconclusive note). "
          "Not asserted: rejection of over-long or >64-bit varints, decoded values, error texts. "
          "non-trivial = the leading varint terminates inside the input and its value (mod 2^64) is larger than the number of "
          "bytes that follow it or >= 2^31; a history is non-trivial when a later round changed the memory; "
@@ -122,6 +156,8 @@ PROPS["C16"] = dict(
                  "'the returned bytes are ... a copy of [a sub-range of the input]' is a statement about the value the call returns: it holds the moment the call has returned, for whoever reads the result first and on however many processors the program runs (big_copies reads the result once, immediately; it never waits and looks again)",
                  "a record of 80 MiB is an ordinary byte string for newBuf=true as well (the process then holds the input and a copy)",
                  "so is an input of 293 MiB (585 MiB in the thorough tier) that consists of continuation bytes, and - thorough tier - a complete record of 2 to 4 GiB decoded with newBuf=true: 'for every byte string' has no size limit, the tiers only differ in what they can afford",
+                 "the Unmarshal functions have no documented state: 'the returned bytes are a sub-range of the input or a copy of one' refers to the input of THIS call, whatever other byte strings - of the same length and checksum or not - were decoded before it or are being decoded next to it",
+                 "a byte string that lives in a local array of the caller (on the goroutine stack) is a byte string like any other; the Go runtime may move it while the callee runs, and 'a sub-range of the input' is judged against where the input is when the call has returned",
                  "the native fuzzing stage (thorough) uses a test binary built with -fuzz (coverage instrumentation) and is seeded with the hostile inputs"],
     units=[
         dict(name="exhaustive", run="^TestC16Exhaustive$", shards=(6, 16), timeout=(200, 600)),
@@ -135,6 +171,8 @@ PROPS["C16"] = dict(
         dict(name="word_runs", run="^TestC16WordRuns$", shards=(2, 3), timeout=(200, 600)),
         dict(name="big_copies", run="^TestC16BigCopies$", shards=(2, 3), timeout=(200, 600)),
         dict(name="huge_copies", run="^TestC16HugeCopies$", enabled=(False, True), shards=1, timeout=(200, 600)),
+        dict(name="collisions", run="^TestC16(Rapid)?Collisions$", checks=(2500, 60000), shards=(1, 4), timeout=(200, 600)),
+        dict(name="stack_inputs", run="^TestC16(Rapid)?StackInputs$", checks=(4000, 80000), shards=(1, 4), timeout=(200, 600)),
         dict(name="first_use", run="^TestC16FirstUse$", shards=(2, 8), timeout=(200, 900)),
         dict(name="first_use_race", run="^TestC16FirstUse$", enabled=(False, True), shards=8, timeout=(200, 900), race=(False, True),
              env={"VERIF_XBIN_FIRSTUSE_TRIES": "1"}),
@@ -151,6 +189,6 @@ LEVEL_TEXT["C16"] = (
     "grammar of hostile length prefixes with short bodies and with records of up to 256 KiB (enumerated: up to 4 MiB, thorough "
     "8 MiB) around every power of two and around the small multiples of 4 KiB, 64 KiB and 1 MiB, mutated valid encodings, the same inputs decoded by up to 8 goroutines at once, runs of 1 to 64 MiB of continuation "
     "bytes and runs whose length crosses the point where a shift counter of 7, 8, 15, 16 or 31 bits (thorough: 32) is exhausted (18 bytes to 293 MiB), records of 32 to 80 MiB of non-zero content whose newBuf=true copies are compared in full the moment the call returns (on one "
-    "processor, next to busy goroutines, on all processors), in the thorough tier records of 2 to 4 GiB copied by newBuf=true, small valid inputs as the very first concurrent calls of a few hundred fresh processes and, in the thorough tier, "
+    "processor, next to busy goroutines, on all processors), in the thorough tier records of 2 to 4 GiB copied by newBuf=true, records whose bodies differ but agree in length and a cheap hash (CRC-32/64, Adler-32, FNV-32, byte sum / xor, equal ends or prefix) decoded back to back in every order of the copying and the zero-copy decoders, inputs that live on the goroutine stack decoded at every level of a descent across the stack sizes (the input moves during the call), small valid inputs as the very first concurrent calls of a few hundred fresh processes and, in the thorough tier, "
     "native go fuzzing from the hostile seeds. No counterexample among the inputs counted in the evidence; not a proof for all byte strings."
 )
